@@ -70,7 +70,8 @@ reference is also the instance identity that `add_wildcard_import` compares. -/
 inductive V where
   | int (n : Int)
   | mref (p : Path)
-  | core (n : Name)          -- a prelude entry (opaque core-library module)
+  | core (n : Name)          -- a prelude entry that is a map (opaque core-library module)
+  | native (n : Name)        -- a prelude entry that is a function (`size`, `type`, `copy`)
   | null                     -- what an unpacking assignment binds when the right-hand side is too short
   /-- the function that the module at `home` (`none` = the host's scripts) exported under `key`; the
   closure itself lives in that module's exports (`Exports.fns`) -/
@@ -406,10 +407,12 @@ def runImport (cfg : Cfg) (fs : FS) (rec : Runner) (fr : Frame) (name : Ref) (st
         | some (.done _), true => some (.ok (.mref p), st1)
         | _, _ => loadModule fs rec p st1
 
-/-- numbers and null: iterating them yields the value itself -/
+/-- numbers, null and functions: iterating them yields the value itself -/
 def V.scalar : V → Bool
   | .int _ => true
   | .null => true
+  | .fn _ _ => true
+  | .native _ => true
   | _ => false
 
 /-- `run_import` when the register already holds a value (the imported id is a local):
@@ -418,6 +421,7 @@ def importValue : V → Except Err V
   | .int _ => .error .type
   | .null => .error .type
   | .fn _ _ => .error .type
+  | .native _ => .error .type
   | v => .ok v
 
 /-- the value an `import m` / `from m` root denotes: a local (compile-time decision of
